@@ -77,6 +77,10 @@ def render_item(it, gapdir=None):
         if m in ('jr', 'jalr'):
             return '%s %s' % (m, reg(a))
         return '%s %s, %s' % (m, reg(a), reg(b))
+    if k == 'br' and it.get('f') == 'c':       # written in the 16-bit form
+        return '%s %s, %s' % ({'beq': 'c.beqz', 'bne': 'c.bnez'}[m], reg(a), t)
+    if k == 'jal' and it.get('f') == 'c':
+        return '%s %s' % ('c.jal' if a == 1 else 'c.j', t)
     if k == 'br':
         return '%s %s, %s, %s' % (m, reg(a), reg(b), t)
     if k == 'jal':
